@@ -445,3 +445,186 @@ theorem plan_wf (table : String) (fromDate toDate : Bytes) : ∀ (ss : List Sele
           · exact ih.2.2 c hcm
 
 end Qryn.Prof
+
+/-! ### two requests of the same shape -/
+namespace Qryn.Prom
+open Qryn Qryn.Sql Qryn.Lex
+
+theorem shape_joinS (sep : Bytes) : ∀ xs : List (List Seg),
+    (joinS sep xs).map Seg.shape = joinS sep (xs.map (List.map Seg.shape))
+  | [] => rfl
+  | [x] => rfl
+  | x :: y :: xs => by
+    have ih := shape_joinS sep (y :: xs)
+    simp only [List.map_cons] at ih ⊢
+    simp only [joinS, List.map_append, List.map_cons, List.map_nil, Seg.shape, ih]
+
+theorem shape_logicalS (fn : String) (parts : List (List Seg)) :
+    (logicalS fn parts).map Seg.shape = logicalS fn (parts.map (List.map Seg.shape)) := by
+  simp only [logicalS, shape_joinS, List.map_map]
+  congr 1
+  apply List.map_congr_left
+  intro x _
+  simp [parenS, Seg.shape]
+
+theorem shape_bitSetS (cs : List (List Seg)) : (bitSetS cs).map Seg.shape = bitSetS (cs.map (List.map Seg.shape)) := by
+  simp only [bitSetS, List.map_append, List.map_cons, List.map_nil, Seg.shape, shape_joinS, indexed_map, List.map_map]
+  congr 2
+  congr 1
+  apply List.map_congr_left
+  intro p _
+  simp [Seg.shape]
+
+/-- the shape of a condition: the operator, the column, whether it is a match — not the strings -/
+def Cond.skel : Cond → Cond
+  | .cmpStr fn col _ => .cmpStr fn col []
+  | .cmpMatch fn col _ k => .cmpMatch fn col [] k
+  | .and2 a b => .and2 a.skel b.skel
+
+theorem Cond.shape_segs : ∀ c : Cond, c.segs.map Seg.shape = c.skel.segs
+  | .cmpStr fn col s => by simp [Cond.segs, Cond.skel, shape_logicalS, Seg.shape]
+  | .cmpMatch fn col pat k => by simp [Cond.segs, Cond.skel, shape_logicalS, Seg.shape]
+  | .and2 a b => by simp [Cond.segs, Cond.skel, shape_logicalS, Cond.shape_segs a, Cond.shape_segs b]
+
+/-- the skeleton of the condition built for a matcher depends on its match type only -/
+theorem condOf_skel (m1 m2 : Matcher) (ht : m1.type = m2.type) :
+    (condOf m1).map Cond.skel = (condOf m2).map Cond.skel := by
+  unfold condOf
+  rw [ht]
+  cases Gen.PromSelect.opClauses.lookup (getOp m2.type) with
+  | none => rfl
+  | some e =>
+    obtain ⟨fn, isMatch, k⟩ := e
+    cases isMatch <;> simp [Cond.skel]
+
+theorem condsOf_skel : ∀ (ms1 ms2 : List Matcher), ms1.map (·.type) = ms2.map (·.type) →
+    (condsOf ms1).map (List.map Cond.skel) = (condsOf ms2).map (List.map Cond.skel)
+  | [], [], _ => rfl
+  | [], _ :: _, h => by simp at h
+  | _ :: _, [], h => by simp at h
+  | m1 :: ms1, m2 :: ms2, h => by
+    simp only [List.map_cons, List.cons.injEq] at h
+    have h1 := condOf_skel m1 m2 h.1
+    have h2 := condsOf_skel ms1 ms2 h.2
+    simp only [condsOf]
+    cases c1 : condOf m1 <;> cases c2 : condOf m2 <;> cases d1 : condsOf ms1 <;> cases d2 : condsOf ms2 <;>
+      simp_all
+
+theorem FpQuery.shape_segs (q : FpQuery) :
+    q.segs.map Seg.shape = ({ q with fromDate := [], conds := q.conds.map Cond.skel } : FpQuery).segs := by
+  have hc : (q.conds.map Cond.segs).map (List.map Seg.shape) = (q.conds.map Cond.skel).map Cond.segs := by
+    simp only [List.map_map]
+    apply List.map_congr_left
+    intro c _
+    exact Cond.shape_segs c
+  simp only [FpQuery.segs, List.map_append, List.map_cons, List.map_nil, Seg.shape, shape_logicalS, shape_bitSetS, hc,
+    List.length_map]
+
+/-- **two matcher lists with the same match types, in the same context, give texts of the same shape** -/
+theorem fpQuery_same_shape (table : String) (d1 d2 : Bytes) (tp : Int) (ms1 ms2 : List Matcher) (q1 q2 : FpQuery)
+    (ht : ms1.map (·.type) = ms2.map (·.type))
+    (h1 : fingerprintsQuery table d1 tp ms1 = some q1) (h2 : fingerprintsQuery table d2 tp ms2 = some q2) :
+    q1.segs.map Seg.shape = q2.segs.map Seg.shape := by
+  have hs := condsOf_skel ms1 ms2 ht
+  unfold fingerprintsQuery at h1 h2
+  cases c1 : condsOf ms1 with
+  | none => simp [c1] at h1
+  | some cs1 =>
+    cases c2 : condsOf ms2 with
+    | none => simp [c2] at h2
+    | some cs2 =>
+      simp [c1] at h1
+      simp [c2] at h2
+      subst h1; subst h2
+      rw [c1, c2] at hs
+      simp only [Option.map_some, Option.some.injEq] at hs
+      rw [FpQuery.shape_segs, FpQuery.shape_segs]
+      simp only [hs]
+
+end Qryn.Prom
+
+namespace Qryn.Prof
+open Qryn Qryn.Sql Qryn.Lex Qryn.Prom
+
+def PCond.skel : PCond → PCond
+  | .cmp fn field _ => .cmp fn field []
+  | .cmpMatch fn field _ => .cmpMatch fn field []
+  | .arrayExists c => .arrayExists c.skel
+  | .and2 a b => .and2 a.skel b.skel
+
+theorem PCond.shape_segs : ∀ c : PCond, c.segs.map Seg.shape = c.skel.segs
+  | .cmp fn field s => by simp [PCond.segs, PCond.skel, shape_logicalS, Seg.shape]
+  | .cmpMatch fn field pat => by simp [PCond.segs, PCond.skel, shape_logicalS, Seg.shape]
+  | .arrayExists c => by simp [PCond.segs, PCond.skel, shape_logicalS, Seg.shape, PCond.shape_segs c]
+  | .and2 a b => by simp [PCond.segs, PCond.skel, shape_logicalS, PCond.shape_segs a, PCond.shape_segs b]
+
+def skelSum : PCond ⊕ PCond → PCond ⊕ PCond
+  | .inl c => .inl c.skel
+  | .inr c => .inr c.skel
+
+theorem matcherClause_skel (field : String) (op : Op) (v1 v2 : Bytes) :
+    (matcherClause field op v1).map PCond.skel = (matcherClause field op v2).map PCond.skel := by
+  unfold matcherClause
+  cases Gen.ProfSelect.opClauses.lookup op.str with
+  | none => rfl
+  | some e => obtain ⟨fn, isMatch⟩ := e; cases isMatch <;> simp [PCond.skel]
+
+/-- two selectors of the same class: the same pseudo-label entry (or both ordinary labels) and the same operator -/
+def SameClass (s1 s2 : Selector) : Prop := pseudoOf s1.name = pseudoOf s2.name ∧ s1.op = s2.op
+
+theorem clauseOf_skel (s1 s2 : Selector) (h : SameClass s1 s2) : (clauseOf s1).map skelSum = (clauseOf s2).map skelSum := by
+  unfold clauseOf
+  rw [h.1, h.2]
+  cases pseudoOf s2.name with
+  | some e =>
+    obtain ⟨field, inArr⟩ := e
+    have hm := matcherClause_skel field s2.op s1.val s2.val
+    cases m1 : matcherClause field s2.op s1.val <;> cases m2 : matcherClause field s2.op s2.val <;>
+      simp_all [skelSum] <;> cases inArr <;> simp_all [PCond.skel]
+  | none =>
+    have hm := matcherClause_skel "val" s2.op s1.val s2.val
+    cases m1 : matcherClause "val" s2.op s1.val <;> cases m2 : matcherClause "val" s2.op s2.val <;>
+      simp_all [skelSum, PCond.skel]
+
+def PQuery.skel (q : PQuery) : PQuery := { q with fromDate := [], toDate := [], globals := q.globals.map PCond.skel, kvs := q.kvs.map PCond.skel }
+
+/-- selector lists that agree position by position in class -/
+def SameClasses : List Selector → List Selector → Prop
+  | [], [] => True
+  | s1 :: r1, s2 :: r2 => SameClass s1 s2 ∧ SameClasses r1 r2
+  | _, _ => False
+
+theorem plan_skel (table : String) (f1 t1 f2 t2 : Bytes) : ∀ (ss1 ss2 : List Selector), SameClasses ss1 ss2 →
+    (plan table f1 t1 ss1).map PQuery.skel = (plan table f2 t2 ss2).map PQuery.skel
+  | [], [], _ => by simp [plan, PQuery.skel]
+  | [], _ :: _, h => by simp [SameClasses] at h
+  | _ :: _, [], h => by simp [SameClasses] at h
+  | s1 :: ss1, s2 :: ss2, h => by
+    simp only [SameClasses] at h
+    obtain ⟨hs, hrest⟩ := h
+    · have h1 := clauseOf_skel s1 s2 hs
+      have h2 := plan_skel table f1 t1 f2 t2 ss1 ss2 hrest
+      simp only [plan]
+      cases c1 : clauseOf s1 <;> cases c2 : clauseOf s2 <;> cases p1 : plan table f1 t1 ss1 <;> cases p2 : plan table f2 t2 ss2 <;>
+        simp_all [skelSum] <;>
+        (rename_i r1 r2 _ _; cases r1 <;> cases r2 <;> simp_all [skelSum, PQuery.skel])
+
+theorem PQuery.shape_segs (q : PQuery) : q.segs.map Seg.shape = q.skel.segs := by
+  have hg : (q.globals.map PCond.segs).map (List.map Seg.shape) = (q.globals.map PCond.skel).map PCond.segs := by
+    simp only [List.map_map]; apply List.map_congr_left; intro c _; exact PCond.shape_segs c
+  have hk : (q.kvs.map PCond.segs).map (List.map Seg.shape) = (q.kvs.map PCond.skel).map PCond.segs := by
+    simp only [List.map_map]; apply List.map_congr_left; intro c _; exact PCond.shape_segs c
+  by_cases h1 : q.globals.isEmpty = true <;> by_cases h2 : q.kvs.isEmpty = true <;>
+    simp [PQuery.segs, PQuery.skel, Seg.shape, shape_logicalS, shape_bitSetS, hg, hk, h1, h2]
+
+/-- **two selector lists of the same classes, in the same context, give texts of the same shape** -/
+theorem pquery_same_shape (table : String) (f1 t1 f2 t2 : Bytes) (ss1 ss2 : List Selector) (q1 q2 : PQuery)
+    (hc : SameClasses ss1 ss2)
+    (h1 : plan table f1 t1 ss1 = some q1) (h2 : plan table f2 t2 ss2 = some q2) :
+    q1.segs.map Seg.shape = q2.segs.map Seg.shape := by
+  have hs := plan_skel table f1 t1 f2 t2 ss1 ss2 hc
+  rw [h1, h2] at hs
+  simp only [Option.map_some, Option.some.injEq] at hs
+  rw [PQuery.shape_segs, PQuery.shape_segs, hs]
+
+end Qryn.Prof
